@@ -30,7 +30,8 @@
 #               which are copied into both branches) the test is the constant it is known to be.
 #   statements  x = e -> let;  a, b = e -> let '(a, b);  x += e;  l.append(e) -> l := l ++ [e];  l[i] = e -> py_setitem;
 #               l[:k] = e -> e ++ l[k:];  if / elif / else with early return: the statements after an `if` are copied into
-#               every branch that falls through (continuation passing), so `return` needs no encoding;  assert c -> the
+#               every branch that falls through (continuation passing), so `return` needs no encoding (`continue` in a
+#               loop body likewise: it yields the loop state as it is);  assert c -> the
 #               function becomes partial (option; None = AssertionError or out of fuel);  while c: body -> while_fuel FUEL
 #               (fun state => c) (fun state => body) state, with FUEL from the table FUEL (the fuel of the hand model) and
 #               state = the variables bound before the loop and assigned in it, in alphabetical order;  for x in range(n) /
@@ -70,6 +71,7 @@ SIGS = {
     'rfc_quote_field': [('src', 'str', None), ('delim', 'str', None)],
 }
 COVERED = list(SIGS)
+OPTIONAL = ['extract_next_field']      # internal: a source may inline it into split_quoted_str (its obligation is then dropped)
 # the fuel of a while loop, per function (the fuel the hand model uses: Csv.split_quoted_tagged passes S (length src))
 FUEL = {'split_quoted_str': 'S (length src)'}
 # expected results (checked after translation: a changed result shape => refused)
@@ -1033,6 +1035,11 @@ class FnTr:
         ast.fix_missing_locations(st)
         return pre + [st]
 
+    def s_Continue(self, st, env, k):
+        if not self.loop_k:
+            refuse(st, 'continue outside a loop')
+        return self.loop_k[-1](env)
+
     def s_Pass(self, st, env, k):
         return k(env)
 
@@ -1267,7 +1274,7 @@ class FnTr:
         """an `if` whose branches only bind variables (no return, no loop):  let '(x, y) := if c then .. (x, y) else .. (x, y) in
         instead of copying the continuation into both branches.  None when a name is bound in one branch only."""
         for n in ast.walk(st):
-            if isinstance(n, (ast.Return, ast.While, ast.For, ast.Assert)):
+            if isinstance(n, (ast.Return, ast.While, ast.For, ast.Assert, ast.Continue)):
                 return None
             if self.is_fn_call(n, env) and self.infos.get(n.func.id) is not None and self.infos[n.func.id].partial:
                 return None
@@ -1333,11 +1340,13 @@ class FnTr:
         pat = tuple_pat([env[n].coq for n in names])
         fpat = ("'" + pat) if len(names) > 1 else pat
         self.loop_depth += 1
+        self.loop_k.append(lambda e2: self.state_value(st, names, env, e2))      # `continue` = the state as it is
         try:
             cond = self.truth(st.test, inner)
-            body = self.block(st.body, inner, lambda e2: self.state_value(st, names, env, e2))
+            body = self.block(st.body, inner, self.loop_k[-1])
         finally:
             self.loop_depth -= 1
+            self.loop_k.pop()
         init = tuple_pat([self.var_text(env[n]) for n in names])
         after = dict(env)
         for n in names:
@@ -1379,10 +1388,12 @@ class FnTr:
         pat = tuple_pat([env[n].coq for n in names])
         fpat = ("'" + pat) if len(names) > 1 else pat
         self.loop_depth += 1
+        self.loop_k.append(lambda e2: self.state_value(st, names, env, e2))
         try:
-            body = self.block(st.body, inner, lambda e2: self.state_value(st, names, env, e2))
+            body = self.block(st.body, inner, self.loop_k[-1])
         finally:
             self.loop_depth -= 1
+            self.loop_k.pop()
         init = tuple_pat([self.var_text(env[n]) for n in names])
         after = dict(env)
         for n in names:
@@ -1406,7 +1417,7 @@ class FnTr:
                 refuse(n, 'list method %s is outside the rules' % n.func.attr)
             if isinstance(n, ast.Subscript) and isinstance(n.ctx, ast.Store) and isinstance(n.value, ast.Name):
                 self.mut_lists.add(n.value.id)
-            if isinstance(n, (ast.Lambda, ast.FunctionDef, ast.ClassDef, ast.Global, ast.Nonlocal, ast.Try, ast.With, ast.Yield, ast.YieldFrom, ast.Delete, ast.Break, ast.Continue)) and n is not node:
+            if isinstance(n, (ast.Lambda, ast.FunctionDef, ast.ClassDef, ast.Global, ast.Nonlocal, ast.Try, ast.With, ast.Yield, ast.YieldFrom, ast.Delete, ast.Break)) and n is not node:
                 refuse(n, '%s is outside the rules' % type(n).__name__)
             if self.is_fn_call(n, {}):
                 callee = self.infos.get(n.func.id)
@@ -1418,6 +1429,7 @@ class FnTr:
         for pn, pt, pd in info.params:
             env[pn] = Var(pt, coq_name(pn))
         self.loop_depth = 0
+        self.loop_k = []
         self.n_while = 0
         self.n_hoist = 0
         self.consumed = [[]]
@@ -1449,6 +1461,8 @@ def analyse(mod, names):
         todo.append(n)
     for n in names:
         if n not in mod.funcs:
+            if n in OPTIONAL:
+                continue
             raise Refuse('%s: the covered function %s is gone' % (LANG.src_rel, n))
         visit(n, [])
     infos = {}
@@ -1550,13 +1564,15 @@ def main():
     os.makedirs(out_dir, exist_ok=True)
     base = 'GenCsvJs' if LANG.js else 'GenCsv'
     tmpl = open(os.path.join(HERE, 'gen_csv_tie_js.v.tmpl' if LANG.js else 'gen_csv_tie.v.tmpl'), encoding='utf-8').read()
+    import re
+    # (*@if NAME*) .. (*@end*): the part of the template about an OPTIONAL function
+    tmpl = re.sub(r'\(\*@if (\w+)\*\)\n(.*?)\(\*@end\*\)\n', lambda m: m.group(2) if m.group(1) in todo else '', tmpl, flags=re.S)
     head = ('(* GENERATED by harness/translate_csv.py from %s on every run - never committed.\n'
             '   Definitions %s<name>: the translation of the source text; then the committed obligations\n'
             '   (= the hand-written index model %s) and the transferred theorems. *)\n'
             'From RBQL Require Import Base Csv PyStr %s.\n\n' % (LANG.src_rel, LANG.prefix, 'CsvIxJs.v' if LANG.js else 'CsvIx.v', 'JsStr CsvIxJs' if LANG.js else 'CsvIx'))
     with open(os.path.join(out_dir, base + '.v'), 'w', encoding='utf-8') as f:
         f.write(head + defs + '\n\n' + tmpl)
-    import re
     thms = re.findall(r'^\s*(?:Theorem|Lemma|Corollary)\s+([A-Za-z0-9_\']+)', re.sub(r'\(\*.*?\*\)', '', tmpl, flags=re.S), flags=re.M)
     table = RX_TABLE_JS if LANG.js else RX_TABLE
     with open(os.path.join(out_dir, base + '.json'), 'w', encoding='utf-8') as f:
